@@ -28,7 +28,7 @@ ANCHORS = [
     ("tangelo/algorithms/variational/vqe_solver.py", "operator_expectation", "temporary swap of the target operator"),
     ("tangelo/algorithms/variational/vqe_solver.py", "__init__", "reference-state override handling"),
 ]
-REQUIRED = {"solver_hamiltonian_is_molecular_plus_penalty": 30, "energy_is_expectation": 60, "energy_is_variational": 60, "symmetry_expectation": 100, "hamiltonian_restored": 100, "deflation_overlap": 10}
+REQUIRED = {"optimal_energy_is_expectation_of_optimal_circuit": 16, "solver_hamiltonian_is_molecular_plus_penalty": 30, "energy_is_expectation": 60, "energy_is_variational": 60, "symmetry_expectation": 100, "hamiltonian_restored": 100, "deflation_overlap": 10}
 BUDGET = {"quick": 300, "thorough": 3000}
 TOL = 1e-7
 
@@ -58,6 +58,7 @@ def cases(tier, seed):
                         continue
                     out.append({"sub": "mol", "mol": mi, "kind": kind, "mapping": mp, "utd": utd})
     out += [{"sub": "qubit_ham", "i": i} for i in range(12 if tier == "quick" else 200)]
+    out += [{"sub": "simulate", "i": i} for i in range(15 if tier == "quick" else 150)]
     return out
 
 
@@ -113,20 +114,26 @@ def run_mol(case, ctx):
     if kind == "VSQS":
         opts["ansatz_options"] = {"intervals": 3, "time": 0.6}
     variant = pr.choice(["plain", "penalty", "penalty", "deflation", "ref_vector", "ref_circuit", "projective"])
+    feats = {variant}
+    if variant != "plain" and pr.random() < 0.5:
+        # options are combinable: add a second one (the two kinds of reference override exclude each other)
+        second = pr.choice([f for f in ("penalty", "deflation", "ref_vector", "ref_circuit", "projective")
+                            if f != variant and {f, variant} != {"ref_vector", "ref_circuit"}])
+        feats.add(second)
     nq = get_qubit_number(MAP, mol.n_active_sos)
-    if variant == "penalty" and kind not in ("UCC1", "UCC3"):
+    if "penalty" in feats and kind not in ("UCC1", "UCC3"):
         opts["penalty_terms"] = {"N": [pr.choice([0.5, 2.0]), mol.n_active_electrons], "Sz": [1.0, mol.active_spin / 2]}
         if pr.random() < 0.5:
             opts["penalty_terms"]["S^2"] = [0.7, (mol.active_spin / 2) * (mol.active_spin / 2 + 1)]
     n_defl = 0
-    if variant == "deflation":
+    if "deflation" in feats:
         n_defl = pr.randint(1, 2)
         defl = []
         for _ in range(n_defl):
             defl.append(gen.to_circuit(gen.random_gates(pr, nq, pr.randint(1, 5), names=["H", "X", "RY", "CNOT", "RZ"], max_controls=1, hostile=0.0), n_qubits=nq))
         opts["deflation_circuits"] = defl
         opts["deflation_coeff"] = pr.choice([0.4, 1.0, 2.5])
-    if variant == "ref_vector" and kind in ("UCCSD", "UpCCGSD", "UCCGD", "HEA") and mol.n_active_sos >= 4:
+    if "ref_vector" in feats and kind in ("UCCSD", "UpCCGSD", "UCCGD", "HEA") and mol.n_active_sos >= 4:
         # a non-HF determinant with the same electron numbers (interleaved ordering): excite the highest occupied alpha orbital
         v = [0] * mol.n_active_sos
         na, nb = mol.n_active_ab_electrons
@@ -138,14 +145,15 @@ def run_mol(case, ctx):
             v[2 * (na - 1)] = 0
             v[2 * na] = 1
         opts["ref_state"] = v
-    if variant == "ref_circuit" and kind in ("UCCSD", "UpCCGSD", "UCCGD", "HEA"):
+    if "ref_circuit" in feats and kind in ("UCCSD", "UpCCGSD", "UCCGD", "HEA"):
         from tangelo.toolboxes.qubit_mappings.statevector_mapping import get_reference_circuit
         with warnings.catch_warnings():
             warnings.simplefilter("ignore")
             rc = get_reference_circuit(mol.n_active_sos, mol.n_active_electrons, MAP, utd, mol.active_spin)
         opts["ref_state"] = rc + Circuit([Gate("RY", 0, parameter=0.3)], n_qubits=nq)
-    if variant == "projective":
+    if "projective" in feats:
         opts["projective_circuit"] = Circuit([Gate("RZ", 0, parameter=0.7), Gate("H", nq - 1)], n_qubits=nq)
+    variant = "+".join(sorted(feats))
     base["variant"] = variant
     with warnings.catch_warnings():
         warnings.simplefilter("ignore")
@@ -223,7 +231,7 @@ def run_mol(case, ctx):
                 ctx.nontrivial((label, kind, mapping, utd, variant, tuple(round(x, 6) for x in theta)))
 
         # all-zero UCCSD parameters reproduce the mean-field energy (ties the solver to the chemistry)
-        if kind == "UCCSD" and variant in ("plain", "penalty"):
+        if kind == "UCCSD" and feats <= {"plain", "penalty"}:
             e0 = solver.energy_estimation([0.0] * nvp)
             ctx.check("hf_energy_at_zero", abs(e0 - mol.mf_energy) < 1e-6, "UCCSD energy at zero amplitudes is not the mean-field energy",
                       dict(base, energy=e0, mf_energy=mol.mf_energy))
@@ -326,5 +334,93 @@ def run_qubit_ham(case, ctx):
     ctx.sample({"sub": "qubit_ham", "ansatz": name, "n": n})
 
 
+def run_simulate(case, ctx):
+    """VQESolver.simulate() with the default and with user-supplied optimizers (whose last evaluation is not the point they return):
+    the reported optimal energy is <psi|H|psi> of the state optimal_circuit prepares, and energy_estimation(optimal_var_params) agrees."""
+    from tangelo.algorithms.variational import VQESolver, BuiltInAnsatze
+    from tangelo.linq import Circuit, Gate
+    from tangelo.toolboxes.qubit_mappings.mapping_transform import get_qubit_number
+    rng, pr, s = case_rng(ctx.seed, "C08", "simulate", case["i"])
+    mi = pr.choice([0, 0, 1])
+    mol = get_mol(mi)
+    kind = pr.choice(["UCCSD", "UCCSD", "HEA", "UpCCGSD", "VSQS"])
+    mapping = pr.choice(["JW", "BK", "JKMN", "SCBK"])
+    utd = pr.random() < 0.5
+    opt_kind = ["default", "nelder_mead", "random_search", "cobyla", "grid_line"][case["i"] % 5]
+    nq = get_qubit_number(mapping, mol.n_active_sos)
+
+    def nelder_mead(func, x0):
+        from scipy.optimize import minimize
+        r = minimize(func, x0, method="Nelder-Mead", options={"maxiter": 25, "maxfev": 40})
+        return r.fun, r.x
+
+    def cobyla(func, x0):
+        from scipy.optimize import minimize
+        r = minimize(func, x0, method="COBYLA", options={"maxiter": 25})
+        return r.fun, r.x
+
+    def random_search(func, x0):
+        best = (func(list(x0)), list(x0))
+        for _ in range(12):
+            x = [pr.uniform(-1, 1) for _ in x0]
+            e = func(x)
+            if e < best[0]:
+                best = (e, x)
+        func([0.123] * len(x0))      # a last, unrelated evaluation
+        return best
+
+    def grid_line(func, x0):
+        x0 = list(x0)
+        vals = []
+        for t in (-0.6, -0.3, 0.0, 0.3, 0.6):
+            x = [t] + x0[1:]
+            vals.append((func(x), x))
+        return min(vals, key=lambda p_: p_[0])
+
+    opts = {"molecule": mol, "ansatz": getattr(BuiltInAnsatze, kind), "qubit_mapping": mapping, "up_then_down": utd,
+            "initial_var_params": "random" if kind != "VSQS" else "ones"}
+    if kind == "VSQS":
+        opts["ansatz_options"] = {"intervals": 2, "time": 0.5}
+        opts.pop("initial_var_params")
+    if opt_kind != "default":
+        opts["optimizer"] = {"nelder_mead": nelder_mead, "random_search": random_search, "cobyla": cobyla, "grid_line": grid_line}[opt_kind]
+    extra_feat = pr.choice(["none", "none", "ref_circuit", "projective"])
+    if extra_feat == "ref_circuit" and kind in ("UCCSD", "UpCCGSD", "HEA"):
+        from tangelo.toolboxes.qubit_mappings.statevector_mapping import get_reference_circuit
+        with warnings.catch_warnings():
+            warnings.simplefilter("ignore")
+            rc = get_reference_circuit(mol.n_active_sos, mol.n_active_electrons, mapping, utd, mol.active_spin)
+        opts["ref_state"] = rc + Circuit([Gate("RY", 0, parameter=0.3)], n_qubits=nq)
+    if extra_feat == "projective":
+        opts["projective_circuit"] = Circuit([Gate("RZ", 0, parameter=0.7), Gate("H", nq - 1)], n_qubits=nq)
+    base = {"molecule": MOLS[mi]["label"], "ansatz": kind, "mapping": mapping, "up_then_down": utd, "optimizer": opt_kind, "extra": extra_feat}
+    with warnings.catch_warnings():
+        warnings.simplefilter("ignore")
+        np.random.seed(s % (2 ** 31))
+        solver = VQESolver(opts)
+        solver.build()
+        if solver.ansatz.n_var_params == 0:
+            return
+        e_opt = solver.simulate()
+        circ = solver.optimal_circuit
+        n = circ.width
+        psi = refsim.run(gen.from_circuit(circ), n)
+        Hm = dense_h(solver.qubit_hamiltonian, n)
+        exact = float(np.real(np.vdot(psi, Hm @ psi)))
+        lam = float(np.linalg.eigvalsh((Hm + Hm.conj().T) / 2)[0])
+        ctx.check("optimal_energy_is_expectation_of_optimal_circuit", abs(e_opt - exact) < 1e-7 and abs(solver.optimal_energy - exact) < 1e-7,
+                  f"simulate(): optimal_energy {e_opt:.9f} is not <psi|H|psi> = {exact:.9f} of the state optimal_circuit prepares",
+                  lambda: dict(base, optimal_energy=e_opt, expectation_of_optimal_circuit=exact, optimal_var_params=list(np.asarray(solver.optimal_var_params, dtype=float))))
+        ctx.check("energy_is_variational", e_opt >= lam - 1e-8, "optimal energy is below the lowest eigenvalue of the Hamiltonian",
+                  lambda: dict(base, optimal_energy=e_opt, lowest_eigenvalue=lam))
+        e_again = solver.energy_estimation(list(solver.optimal_var_params))
+        ctx.check("optimal_energy_is_expectation_of_optimal_circuit", abs(e_again - e_opt) < 1e-7,
+                  "energy_estimation(optimal_var_params) differs from the optimal energy simulate() reported",
+                  lambda: dict(base, optimal_energy=e_opt, re_evaluated=e_again))
+    ctx.nontrivial(("simulate", repr(base)))
+    ctx.sample(dict(base, sub="simulate"))
+    ctx.tab("simulate_optimizer", opt_kind)
+
+
 def run_case(case, ctx):
-    {"mol": run_mol, "qubit_ham": run_qubit_ham}[case["sub"]](case, ctx)
+    {"mol": run_mol, "qubit_ham": run_qubit_ham, "simulate": run_simulate}[case["sub"]](case, ctx)
